@@ -208,6 +208,16 @@ FIXED = [
         mk_field("AllowAutoTopicCreation", "bool", "4+", default="true")]},
     {"name": "MetadataResponse", "type": "response", "apiKey": 3, "validVersions": "0-12", "flexibleVersions": "9+", "fields": [
         mk_field("ThrottleTimeMs", "int32", "3+")]},
+    # ignorable tagged fields WITHOUT default of the types that have no null on the wire (and of those that have one)
+    {"name": "TaggedZeroesData", "type": "data", "validVersions": "0-1", "flexibleVersions": "0+", "fields": [
+        mk_field("Plain", "int32", "0+"),
+        mk_field("Flag", "bool", "0+", taggedVersions="0+", tag=0, ignorable=True),
+        mk_field("ErrorCode", "int16", "0+", taggedVersions="0+", tag=1, ignorable=True),
+        mk_field("TimeoutMs", "int32", "0+", taggedVersions="0+", tag=2, ignorable=True),
+        mk_field("RetentionTimeMs", "int64", "1+", taggedVersions="1+", tag=3, ignorable=True),
+        mk_field("Ratio", "float64", "0+", taggedVersions="0+", tag=4, ignorable=True),
+        mk_field("Note", "string", "0+", taggedVersions="0+", tag=5, ignorable=True),
+        mk_field("Owner", "uuid", "0+", taggedVersions="0+", tag=6, ignorable=True)]},
 ]
 
 
